@@ -18,7 +18,8 @@ Inductive tok :=
 | TkLoc (i : nat) | TkPar (i : nat) | TkGlob (n : nat) | TkProp (n : nat)
 | TFun (f : nat) | TLFun (f : nat)
 (* the <property> of <object> <id>: the property token carries the form and the property number *)
-| TThe | TOf | TObjProp (f : ofam) (pid : nat) | TKw (f : ofam) | TRawInt (z : Z) | TRawConst (k : nat) | TItemKw | TMenuProp (pid : nat).
+| TThe | TOf | TObjProp (f : ofam) (pid : nat) | TKw (f : ofam) | TRawInt (z : Z) | TRawConst (k : nat) | TItemKw | TMenuProp (pid : nat)
+| TTheProp (k : thekind) (i : nat).      (* the <special property / date-time function / system property>, one token *)
 
 Definition render_tok (en : env) (t : tok) : string :=
   match t with
@@ -48,6 +49,12 @@ Definition render_tok (en : env) (t : tok) : string :=
   | TRawConst k => match nth k (e_consts en) (CInt 0) with CStr s => s | CInt z => str_of_int z end   (* ... or a pool constant *)
   | TItemKw => "menuItem"
   | TMenuProp pid => nth pid MENUITEM_PROPERTIES ""
+  | TTheProp k i =>
+    let name := nth i (the_table k) "" in
+    match k with
+    | TSpecial => if mem_str name VARIABLE_KNOWN_SYMBOLS then name else "the " ++ name
+    | _ => "the " ++ name
+    end
   end.
 Definition render (en : env) (ts : list tok) : string := concat_all (map (render_tok en) ts).
 
@@ -101,6 +108,7 @@ Fixpoint pp_tok (en : env) (e : expr) {struct e} : list tok :=
   | EMenu pid it mn =>
     [TThe; TSp; TMenuProp pid; TSp; TOf; TSp; TItemKw; TSp] ++ raw_or it (pp_tok en it) ++
     [TSp; TOf; TSp; TKw FMenuName; TSp] ++ raw_or mn (pp_tok en mn)
+  | EThe k i => [TTheProp k i]
   end.
 
 (* ---- the parser ---- *)
@@ -192,6 +200,7 @@ Fixpoint parse_u (fuel : nat) (ts : list tok) {struct fuel} : option (expr * lis
     | TLFun fn :: TLP :: r =>
       match args_loop parse_e f r with Some (es, TRP :: r') => Some (ELCall fn es, r') | _ => None end
     | TLFun fn :: r => Some (ELCall fn [], r)
+    | TTheProp k i :: r => Some (EThe k i, r)
     | TLB :: TColon :: TRB :: r => Some (EPList [], r)
     | TLB :: TRB :: r => Some (EList [], r)
     | TThe :: TObjProp fam pid :: TOf :: r =>
